@@ -196,7 +196,7 @@ pub fn run(ctx: &Ctx, rep: &mut Report) {
         let mut g = ctx.rng("shape", c);
         shape_case(ctx, rep, c, &mut g);
     }
-    for c in ctx.case_ids("dist", 24, 4000) {
+    for c in ctx.case_ids("dist", 24, 16_000) {
         let mut g = ctx.rng("dist", c);
         dist_case(ctx, rep, c, &mut g);
     }
